@@ -127,6 +127,12 @@ type Worker struct {
 	poolLive    map[int]bool
 	chanCnt     int
 	sched       *scheduler
+	threads     []*thread
+	curT        *thread
+	mainT       *thread
+	abort       interface{}
+	threadCnt   int
+	idleCalls   int
 	onceDone    map[string]bool
 	inOnce      int
 	reportedOnce map[string]bool
@@ -183,6 +189,9 @@ func (w *Worker) resetPath(prefix []Decision) {
 	w.poolLive = map[int]bool{}
 	w.chanCnt = 0
 	w.sched = nil
+	w.threadCnt = 0
+	w.idleCalls = 0
+	w.initThreads()
 	w.onceDone = nil
 	w.inOnce = 0
 	w.reportedOnce = map[string]bool{}
@@ -516,6 +525,19 @@ func (w *Worker) runPath(h *Harness, prefix []Decision) (end string, err error) 
 						w.reportViolation("nopanic", "panic:"+x.Kind, w.libSite(), x.Msg, w.model)
 						end = "violation"
 					}()
+				case deadlockAbort:
+					func() {
+						defer func() {
+							if r2 := recover(); r2 != nil {
+								if pe, ok := r2.(pathEnd); ok {
+									end = pe.Reason
+									return
+								}
+								panic(r2)
+							}
+						}()
+						w.reportDeadlock()
+					}()
 				case engineError:
 					err = fmt.Errorf("%s [stack: %s]", x.Msg, w.stackTrace())
 					end = "error"
@@ -532,6 +554,7 @@ func (w *Worker) runPath(h *Harness, prefix []Decision) (end string, err error) 
 		w.callFunction(h.Fn, nil, nil)
 		end = "done"
 	}()
+	w.killThreads()
 	_ = st
 	// witness
 	var wit *Witness
